@@ -370,7 +370,7 @@ func Run(c *core.Ctx, replay string) (*core.Result, error) {
 		rng := rand.New(rand.NewSource(c.Seed))
 		n := 12
 		if c.Thorough() {
-			n = 150
+			n = 900
 		}
 		id := 0
 		add := func(p *absprog.Prog, multi bool) {
